@@ -151,7 +151,7 @@ def runPrefix {S : Type} (q : Q K) (upd : S → Node K → Option (Vector (Optio
   | [], s => (s, true)
   | n :: T, s =>
     match q.nodes[n]? with
-    | none => (s, true)
+    | none => runPrefix q upd stop T s
     | some nd =>
       if stop s nd (leafDataOf q nd) then (upd s nd (leafDataOf q nd), false)
       else runPrefix q upd stop T (upd s nd (leafDataOf q nd))
@@ -314,5 +314,178 @@ theorem mreach_of_path {q : Q K} (maskOf : Node K → Vector Bool 4) (p : Nat) (
     unfold pushLane
     rw [hm nd l bx hb hcont, hc]
     simp [hl]; omega
+
+/-! ## `BoundingVolumeIntersectionsVisitor` with the counting callback -/
+
+/-- the visitor's state update: the reports of the node, up to the one on which the callback answers `false` -/
+def bvUpd (qb : Aabb3 K) (limit : Nat) (out : List Nat) (nd : Node K) (data : Option (Vector (Option Nat) 4)) : List Nat :=
+  match data with
+  | some d => (bvReport limit (bvMask qb nd) d out).1
+  | none => out
+
+/-- the visitor answers `ExitEarly` -/
+def bvStop (qb : Aabb3 K) (limit : Nat) (out : List Nat) (nd : Node K) (data : Option (Vector (Option Nat) 4)) : Bool :=
+  match data with
+  | some d => (bvReport limit (bvMask qb nd) d out).2
+  | none => false
+
+theorem bvVisit_eq (qb : Aabb3 K) (limit : Nat) (out : List Nat) (nd : Node K) (data : Option (Vector (Option Nat) 4)) :
+    bvVisit qb limit out nd data =
+      (bvUpd qb limit out nd data, if bvStop qb limit out nd data then none else some (bvMask qb nd)) := by
+  unfold bvVisit bvUpd bvStop
+  cases data with
+  | none => simp
+  | some d => by_cases h : (bvReport limit (bvMask qb nd) d out).2 = true <;> simp [h]
+
+/-- what the callback receives at lane `l` -/
+def cbLane (mask : Vector Bool 4) (data : Vector (Option Nat) 4) (l : Nat) : Option Nat :=
+  match mask[l]?, data[l]? with
+  | some true, some (some d) => some d
+  | _, _ => none
+
+/-- the lane loop with its early `return`, on any list of lanes -/
+def bvReportOn (limit : Nat) (mask : Vector Bool 4) (data : Vector (Option Nat) 4) (ls : List Nat) (st : List Nat × Bool) :
+    List Nat × Bool :=
+  ls.foldl (fun (st : List Nat × Bool) ii =>
+    if st.2 then st
+    else
+      match mask[ii]?, data[ii]? with
+      | some true, some (some d) => (d :: st.1, !(decide (st.1.length + 1 < limit)))
+      | _, _ => st) st
+
+theorem bvReportOn_stopped (limit : Nat) (mask : Vector Bool 4) (data : Vector (Option Nat) 4) :
+    ∀ (ls : List Nat) (out : List Nat), bvReportOn limit mask data ls (out, true) = (out, true) := by
+  intro ls
+  induction ls with
+  | nil => intro out; rfl
+  | cons l ls ih => intro out; simp only [bvReportOn, List.foldl_cons, if_true]; exact ih out
+
+/-- **the counting callback**: the loop reports the lanes' leaves in order and stops at the one that makes `limit` -/
+theorem bvReportOn_spec (limit : Nat) (mask : Vector Bool 4) (data : Vector (Option Nat) 4) :
+    ∀ (ls : List Nat) (out : List Nat), out.length < limit →
+      bvReportOn limit mask data ls (out, false) =
+        if out.length + (ls.filterMap (cbLane mask data)).length < limit then ((ls.filterMap (cbLane mask data)).reverse ++ out, false)
+        else (((ls.filterMap (cbLane mask data)).take (limit - out.length)).reverse ++ out, true) := by
+  intro ls
+  induction ls with
+  | nil => intro out h; simp [bvReportOn, h]
+  | cons l ls ih =>
+    intro out h
+    cases hg : cbLane mask data l with
+    | none =>
+      have hstep : bvReportOn limit mask data (l :: ls) (out, false) = bvReportOn limit mask data ls (out, false) := by
+        simp only [bvReportOn, List.foldl_cons, Bool.false_eq_true, if_false]
+        congr 1
+        unfold cbLane at hg
+        split at hg <;> simp_all
+      rw [hstep, ih out h]
+      simp [List.filterMap_cons, hg]
+    | some d =>
+      have hm : mask[l]? = some true ∧ data[l]? = some (some d) := by
+        unfold cbLane at hg
+        split at hg
+        · rename_i d' h1 h2; cases hg; exact ⟨h1, h2⟩
+        · cases hg
+      by_cases hlt : out.length + 1 < limit
+      · have hstep : bvReportOn limit mask data (l :: ls) (out, false) = bvReportOn limit mask data ls (d :: out, false) := by
+          simp only [bvReportOn, List.foldl_cons, Bool.false_eq_true, if_false, hm.1, hm.2, hlt, decide_true, Bool.not_true]
+        rw [hstep, ih (d :: out) (by simpa using hlt)]
+        simp only [List.filterMap_cons, hg, List.length_cons, List.reverse_cons, List.append_assoc, List.singleton_append]
+        have e1 : out.length + 1 + (List.filterMap (cbLane mask data) ls).length
+            = out.length + ((List.filterMap (cbLane mask data) ls).length + 1) := by omega
+        rw [e1]
+        split
+        · rfl
+        · have e2 : limit - out.length = (limit - (out.length + 1)) + 1 := by omega
+          rw [e2, List.take_succ_cons]
+          simp
+      · have hstep : bvReportOn limit mask data (l :: ls) (out, false) = bvReportOn limit mask data ls (d :: out, true) := by
+          simp only [bvReportOn, List.foldl_cons, Bool.false_eq_true, if_false, hm.1, hm.2, hlt, decide_false, Bool.not_false]
+        rw [hstep, bvReportOn_stopped]
+        simp only [List.filterMap_cons, hg, List.length_cons]
+        rw [if_neg (by omega)]
+        have e2 : limit - out.length = 0 + 1 := by omega
+        rw [e2, List.take_succ_cons]
+        simp
+
+/-- at a leaf node the callback receives exactly what `intersect_aabb` reports -/
+theorem cbLane_leaf (q : Q K) (qb : Aabb3 K) (nd : Node K) (hleaf : nd.leaf = true) (l : Nat) :
+    cbLane (bvMask qb nd) (nd.children.map fun c => (q.proxies[c]?).map (·.data)) l = reportLane q qb nd l := by
+  unfold cbLane reportLane
+  rw [bvMask_get, Vector.getElem?_map]
+  cases hb : nd.boxes[l]? with
+  | none => simp
+  | some bx =>
+    cases hc : nd.children[l]? with
+    | none => cases hi : boxIntersects bx qb <;> simp [hi]
+    | some c =>
+      simp only [Option.map_some, hleaf, Bool.and_true]
+      cases hi : boxIntersects bx qb with
+      | false => simp
+      | true => cases q.proxies[c]? <;> simp
+
+theorem nodeReports_internal (q : Q K) (qb : Aabb3 K) (n : Nat) (nd : Node K) (hnd : q.nodes[n]? = some nd)
+    (hleaf : nd.leaf = false) : nodeReports q qb n = [] := by
+  unfold nodeReports
+  rw [hnd]
+  apply List.filterMap_eq_nil_iff.2
+  intro l _
+  unfold reportLane
+  split
+  · simp [hleaf]
+  · rfl
+
+/-- **the early-exit traversal reports the first `limit` leaves of the full report order and stops there** (on the visit
+order `T`) -/
+theorem runPrefix_bv (q : Q K) (qb : Aabb3 K) (limit : Nat) :
+    ∀ (T : List Nat) (out : List Nat), out.length < limit →
+      runPrefix q (bvUpd qb limit) (bvStop qb limit) T out =
+        if out.length + (T.flatMap (nodeReports q qb)).length < limit then ((T.flatMap (nodeReports q qb)).reverse ++ out, true)
+        else (((T.flatMap (nodeReports q qb)).take (limit - out.length)).reverse ++ out, false) := by
+  intro T
+  induction T with
+  | nil => intro out h; simp [runPrefix, h]
+  | cons n T ih =>
+    intro out h
+    simp only [runPrefix, List.flatMap_cons]
+    cases hnd : q.nodes[n]? with
+    | none =>
+      have : nodeReports q qb n = [] := by unfold nodeReports; rw [hnd]
+      simp only [this, List.nil_append]
+      exact ih out h
+    | some nd =>
+      simp only
+      by_cases hleaf : nd.leaf = true
+      · have hR : nodeReports q qb n = lanes4.filterMap (cbLane (bvMask qb nd) (nd.children.map fun c => (q.proxies[c]?).map (·.data))) := by
+          unfold nodeReports; rw [hnd]
+          show lanes4.filterMap (reportLane q qb nd) = _
+          congr 1; funext l; exact (cbLane_leaf q qb nd hleaf l).symm
+        have hspec := bvReportOn_spec limit (bvMask qb nd) (nd.children.map fun c => (q.proxies[c]?).map (·.data)) lanes4 out h
+        rw [← hR] at hspec
+        have hrep : bvReport limit (bvMask qb nd) (nd.children.map fun c => (q.proxies[c]?).map (·.data)) out
+            = bvReportOn limit (bvMask qb nd) (nd.children.map fun c => (q.proxies[c]?).map (·.data)) lanes4 (out, false) := rfl
+        simp only [leafDataOf, hleaf, if_true, bvStop, bvUpd, hrep, hspec]
+        by_cases hlt : out.length + (nodeReports q qb n).length < limit
+        · simp only [hlt, if_true, Bool.false_eq_true, if_false]
+          rw [ih _ (by simp only [List.length_append, List.length_reverse]; omega)]
+          simp only [List.length_append, List.length_reverse, List.reverse_append, List.append_assoc]
+          have e1 : (nodeReports q qb n).length + out.length + (List.flatMap (nodeReports q qb) T).length
+              = out.length + ((nodeReports q qb n).length + (List.flatMap (nodeReports q qb) T).length) := by omega
+          rw [e1]
+          split
+          · rfl
+          · rw [List.take_append]
+            have e2 : List.take (limit - out.length) (nodeReports q qb n) = nodeReports q qb n :=
+              List.take_of_length_le (by omega)
+            have e3 : limit - out.length - (nodeReports q qb n).length = limit - ((nodeReports q qb n).length + out.length) := by omega
+            rw [e2, e3]
+            simp
+        · simp only [hlt, if_false, if_true]
+          rw [if_neg (by simp only [List.length_append]; omega)]
+          rw [List.take_append_of_le_length (by omega)]
+      · simp only [Bool.not_eq_true] at hleaf
+        have hR := nodeReports_internal q qb n nd hnd hleaf
+        simp only [leafDataOf, hleaf, Bool.false_eq_true, if_false, bvStop, bvUpd, hR, List.nil_append]
+        exact ih out h
 
 end C08
